@@ -150,6 +150,16 @@ def eofMarkers (L : Layout) (st : ES) : Bytes :=
 def encode (L : Layout) (rs : List Bytes) : Bytes :=
   encRecs L ES.init rs ++ eofMarkers L (stAfterRecs L ES.init rs)
 
+/-- the first `k` (0, 1 or 2) TIF end-of-file markers: a file still being written has none (`close()` writes both) -/
+def eofMarkersN (L : Layout) (st : ES) : Nat → Bytes
+  | 0 => []
+  | 1 => tifMarker L.tif 1 st.back (st.pos + 12)
+  | _ => eofMarkers L st
+
+/-- the file with only the first `k` end-of-file markers (`k = 2`: the closed file, `k = 0`: the bytes before `close()`) -/
+def encodeN (L : Layout) (rs : List Bytes) (k : Nat) : Bytes :=
+  encRecs L ES.init rs ++ eofMarkersN L (stAfterRecs L ES.init rs) k
+
 /-- size on file of one logical record -/
 def recSize (L : Layout) (r : Bytes) : Nat :=
   ((chunks L.maxPayload r).map (fun c => L.tifLen + prLenOf L c)).sum
